@@ -1877,6 +1877,7 @@ def rule_grow(rep, inst, R="C03.grow"):
                     t_ = t_[3]
                 ref_locals[v_.get("name")] = t_
         bad = None
+        inconc = None
         npatch = 0
         for path in paths:
             decl_at = {}
@@ -1967,52 +1968,52 @@ def rule_grow(rep, inst, R="C03.grow"):
                 if any(tm >= (resize_at if resize_at is not None else 10 ** 9) for tm in read_time(raw_tgt, decl_at, at)):
                     bad = (n, "the block count used to find the old last block is read after the buffer was resized")
                     break
-                if not (val[0] == "bin" and val[1] == "<<" and val[3] == EXTRA):
-                    bad = (n, "the patch ORs `%s`, expected all-ones shifted left by (old size %% bits_per_block)" % ir.show(raw_val))
-                    break
-                if any(tm >= (size_store_at if size_store_at is not None else 10 ** 9) for tm in read_time(raw_val[3] if raw_val[0] == "bin" else raw_val, decl_at, at)):
+                if any(tm >= (size_store_at if size_store_at is not None else 10 ** 9) for tm in read_time(raw_val, decl_at, at)):
                     bad = (n, "the number of used bits of the old last block is computed after m_size was updated")
                     break
-                # the shifted value must be all-ones when b is true
+                # the value ORed in, folded for every number e = 1..W-1 of used bits of the old last block with b true: all-ones << e.  The locals
+                # it mentions take the value they hold on THIS path (initialiser or last assignment before the patch).
                 vnode = ir.ekids(n)[1]
-                vt = ir.strip(vnode)
-                while vt.get("kind") in ("ParenExpr", "ImplicitCastExpr") and ir.ekids(vt):
-                    vt = ir.ekids(vt)[0]
-                left = ir.ekids(vt)[0] if vt.get("kind") == "BinaryOperator" else None
-                ones = False
-                if left is not None:
+                wrong = None
+                for e_ in range(1, inst.W):
                     env = {}
                     for p_ in ir.params(fn):
                         if p_.get("name") == b:
                             env[p_.get("id")] = 1
+                    members = {"m_size": e_}
+
+                    def mk():
+                        c_ = ceval.Ctx(d, env, members)
+                        c_.call_values = {("call", ("mem", ("mem", ("this",), "m_buffer"), "size")): 1}
+                        return c_
+                    for st2 in path[:at]:
+                        try:
+                            if st2[0] == "decl" and ir.ekids(st2[1]) and trange.type_range(ir.qtype(st2[1])) is not None:
+                                env[st2[1].get("id")] = ceval.conv(ceval.ev(ir.ekids(st2[1])[-1], mk()), ir.qtype(st2[1]))
+                            elif st2[0] == "ev" and st2[1].get("kind") == "BinaryOperator" and st2[1].get("opcode") == "=":
+                                l2 = ir.strip(ir.ekids(st2[1])[0])
+                                if l2.get("kind") == "DeclRefExpr":
+                                    rid_ = (l2.get("referencedDecl") or {}).get("id")
+                                    env[rid_] = ceval.conv(ceval.ev(ir.ekids(st2[1])[1], mk()), ir.qtype(l2))
+                        except (ceval.Unknown, ceval.UB):
+                            pass
                     try:
-                        src = left
-                        hops = 0
-                        while hops < 4:
-                            sx_ = ir.strip(src)
-                            while sx_.get("kind") in ("ImplicitCastExpr", "ParenExpr") and ir.ekids(sx_):
-                                sx_ = ir.strip(ir.ekids(sx_)[0])
-                            vname = (sx_.get("referencedDecl") or {}).get("name") if sx_.get("kind") == "DeclRefExpr" else None
-                            # the value the local holds on THIS path: its last assignment before the patch, else its initialiser
-                            last = None
-                            for st2 in path[:at]:
-                                if st2[0] == "ev" and st2[1].get("kind") == "BinaryOperator" and st2[1].get("opcode") == "=":
-                                    l2 = ir.strip(ir.ekids(st2[1])[0])
-                                    if l2.get("kind") == "DeclRefExpr" and (l2.get("referencedDecl") or {}).get("name") == vname:
-                                        last = ir.ekids(st2[1])[1]
-                            if vname is not None and last is not None:
-                                src = last
-                                hops += 1
-                            elif vname in decl_nodes and ir.ekids(decl_nodes[vname]):
-                                src = ir.ekids(decl_nodes[vname])[-1]
-                                hops += 1
-                            else:
-                                break
-                        ones = ceval.conv(ceval.ev(src, ceval.Ctx(d, env)), inst.btype) == inst.full
-                    except (ceval.Unknown, ceval.UB):
-                        ones = False
-                if not ones:
-                    bad = (n, "the value shifted into the old last block is not all-ones when b is true")
+                        got = ceval.conv(ceval.ev(vnode, mk()), inst.btype) & inst.full
+                    except ceval.UB as ex:
+                        wrong = (e_, "undefined behaviour: %s" % ex)
+                        break
+                    except ceval.Unknown as ex:
+                        wrong = (e_, None, str(ex))
+                        break
+                    want = (inst.full << e_) & inst.full
+                    if got != want:
+                        wrong = (e_, "it ORs %#x where the bits above the old size are %#x" % (got, want))
+                        break
+                if wrong and wrong[1] is None:
+                    inconc = "the value ORed into the old last block (`%s`) is not foldable: %s" % (ir.show(raw_val)[:50], wrong[2])
+                    break
+                if wrong:
+                    bad = (n, "with %d used bits in the old last block and b true, %s (`%s`)" % (wrong[0], wrong[1], ir.show(raw_val)[:50]))
                     break
             else:
                 if b_true and grows and extra_nonzero is not False and not not_grows:
@@ -2023,6 +2024,8 @@ def rule_grow(rep, inst, R="C03.grow"):
                         break
         if bad:
             rep.violates(R, lab, "growing with true fills the old last block above the old size", where=d.where(bad[0]), detail=bad[1])
+        elif inconc:
+            rep.inconclusive(R, lab, "growing with true fills the old last block above the old size", where=d.where(fn), detail=inconc)
         elif npatch == 0:
             rep.violates(R, lab, "growing with true fills the old last block above the old size", where=d.where(fn),
                          detail="resize(n, true) never ORs the fill value into the old last block: after growing from a size that is not a multiple of the block width the new bits up to the block boundary are 0")
